@@ -70,6 +70,9 @@ class Model:
             finally:
                 env.pop()
         elif t == "set":
+            if n[1] == "*b*" and n[2] == REJECT:
+                # the validator rejects the value: set! raises and nothing changes
+                raise ModelThrow("set-reject")
             for fr in reversed(env):
                 if n[1] in fr:
                     fr[n[1]] = n[2]
